@@ -1,5 +1,5 @@
 From Coq Require Import Extraction ExtrOcamlBasic.
 From SqfsV Require Import C04.TarNum C04.TarHdr C04.TarStream.
 Extraction "c04_model.ml" read_number write_number write_number_signed s64_of_u64 checksum
-  padding write_tar_header read_header read_archive write_archive stream_go retarget retarget_old
+  padding write_tar_header write_entry_hdr write_entries read_header read_archive write_archive stream_go retarget retarget_old
   strip_root clamp_mtime.
